@@ -151,6 +151,9 @@ type execResult struct {
 
 var curRunStart atomic.Int64
 
+// rlog is the race detector's log (race build only).
+var rlog *raceLog
+
 // execute generates, runs and judges one tape.
 func execute(t *testing.T, p *Property, tape *Tape, tier string) execResult {
 	sc := p.Gen(tape, tier)
@@ -162,6 +165,14 @@ func execute(t *testing.T, p *Property, tape *Tape, tier string) execResult {
 	curRunStart.Store(0)
 	viols := p.Check(sc, h)
 	viols = append(viols, harnessChecks(sc, h)...)
+	for _, rep := range rlog.poll() {
+		h.Races++
+		if rep.Harness {
+			viols = append(viols, Violation{Rule: "HARNESS", Detail: "data race in harness code:\n" + rep.Text})
+			continue
+		}
+		viols = append(viols, Violation{Rule: "C20.race", Detail: "the Go race detector reports:\n" + clip(rep.Text, 6000), Witness: rep.Key})
+	}
 	return execResult{sc, h, viols}
 }
 
@@ -228,6 +239,7 @@ func WorkerMain(t *testing.T) {
 	}
 	cryptotest.SetGlobalRandom(t, 20260926)
 	tlsConfigs()
+	rlog = openRaceLog()
 	if rp := os.Getenv("VERIF_REPLAY"); rp != "" {
 		replayMain(t, p, rp)
 		return
@@ -476,6 +488,13 @@ func minimise(t *testing.T, p *Property, tape *Tape, tier string, v Violation, k
 	best := append([]uint64{}, tape.Vals...)
 	over := mergeOver(tape.Over, nil)
 	budget := envInt("VERIF_SHRINK_BUDGET", 400)
+	if v.Rule == "C20.race" {
+		// The detector reports a given race once per process, so the run cannot be
+		// re-executed here: report the original tape (it replays in a fresh process).
+		tp := ReplayTape(best, over)
+		sc := p.Gen(tp, tier)
+		return &Failure{Property: p.ID, Rule: v.Rule, Detail: v.Detail, Witness: v.Witness, Tape: best, Over: over, Scenario: sc.Describe(), History: strings.Split(v.Detail, "\n"), Digest: "race"}
+	}
 	execs := 0
 	var bestER execResult
 	var bestV Violation
@@ -620,7 +639,7 @@ func replayMain(t *testing.T, p *Property, path string) {
 	dig := er.h.Digest()
 	fmt.Printf("digest recorded=%s replayed=%s identical=%v\n", f.Digest, dig, dig == f.Digest)
 	switch {
-	case same && dig == f.Digest:
+	case same && (dig == f.Digest || f.Digest == "race"):
 		fmt.Printf("REPRODUCED exactly\nVIOLATION property=%s replay=%s\n", p.ID, path)
 		os.Exit(1)
 	case same:
